@@ -13,7 +13,7 @@ import json, os
 from vlib.core import VERIF, CheckError
 from vlib.syslevel import run_many
 from vlib.conclevel import run_mt, calibrate, observed_locks
-from checks.c09 import setup_conc, query_handlers, load_handlers, query_unprotected, model_lines, corpus_cases, new_violations, coqchk_props, AREA
+from checks.c09 import RARE_INIS, setup_conc, query_handlers, load_handlers, query_unprotected, model_lines, corpus_cases, new_violations, coqchk_props, AREA
 
 OUTPUTS = [
     ("file", b'[snoopy]\noutput = file:@D@/out.log\n'),
@@ -202,6 +202,20 @@ def check(run):
             elif r["status"] != 0 or not done:
                 run.violation("forkstress:caller-died:%s" % r["status"], "crash", "fork stress (%s) ended with status %s: %s" % (sname, r["status"], r["stderr"][-300:]),
                               {"failing_input": {"mode": "forkstress", "config": sname, "threads": nthr, "forks": forks}, "mode": "forkstress", "config": sname, "threads": nthr, "forks": forks, "ini": sini.decode()})
+        # ---------------------------------------------------------------- forks after calls that went through a rarely taken path: fork() must return, the child must complete
+        for (rname, rpty, rini) in RARE_INIS:
+            r = run_mt(run, lib, "forkstress", 2, 1, "5", rini, "forkrare-" + rname[:12], timeout=120, env={"MT_ALARM": "10"}, pty_stdin=rpty)
+            fs = [f for f in r["trace"]["other"] if f[0] == "forkstress"]
+            stuck = r["status"] == 3 or "stuck" in [f[0] for f in r["trace"]["other"]]
+            badc = [f for f in fs if f[1] == "child"]
+            st["forkstress"] = st.get("forkstress", 0) + 5
+            if stuck or badc or r["status"] != 0:
+                run.violation("forkrare:%s:%s" % ("fork-never-returned" if stuck else "child-blocked" if badc else "caller-died-%s" % r["status"], rname), "timeout",
+                              "two threads make wrapped calls that take a rarely used path (%s) while the main thread forks: %s" % (rname,
+                              "fork() never returns (10 s): a thread kept the repository mutex, the prepare handler waits for it for ever" if stuck
+                              else "the child of fork #%s does not complete its exec call" % badc[0][2] if badc else "status %s %s" % (r["status"], r["stderr"][-200:])),
+                              {"failing_input": {"mode": "forkstress", "config": rname, "threads": 2, "forks": 5}, "mode": "forkstress", "config": "terminal " + rname if rpty else rname,
+                               "threads": 2, "forks": 5, "ini": rini.decode()})
         # ---------------------------------------------------------------- the fork that begins before the one-time initialisation
         rr = run_mt(run, lib, "forkrace", 2, 1, "-", OUTPUTS[0][1], "forkrace", timeout=120)
         ro = outcome(rr)
